@@ -1,15 +1,16 @@
 (* Model/DispatchC02.v — the two entries of Model/TzDispatch.v that C02 uses (same numbers and argument layout; repeated here because the
    extracted entry point must be the only function named `dispatch`) plus the history machine of Model/WallHistory.v.
    A zone is passed as  init :: n :: t1 :: o1 :: ... ;
-   hist: args = the operations of the history, each  opcode :: [zone window] :: scalars  (WallHistory.parse_op). *)
+   hist: args = the operations of the history, each  opcode :: [zone window] :: scalars  (WallHistory.parse_op; opcode 13 = a subset of the
+   fields, WallFields.parse_op2). *)
 From Coq Require Import ZArith List Bool.
-From PV Require Import Lib.PyBase Spec.Cal Spec.Zone Model.TzConvert Model.TzDispatch Model.WallHistory.
+From PV Require Import Lib.PyBase Spec.Cal Spec.Zone Model.TzConvert Model.TzDispatch Model.WallHistory Model.WallFields.
 Import ListNotations.
 Open Scope Z_scope.
 
 Definition dispatch (fn : Z) (args : list Z) : list Z :=
   match fn with
-  | 20 (* hist *) => run_history args
+  | 20 (* hist *) => run_history2 args
   | _ =>
     match parse_zone args with
     | None => [9]
